@@ -394,6 +394,11 @@ func (b *vBody) Read(p []byte) (int, error) {
 }
 func (b *vBody) Close() error { return nil }
 
+// verifGetBodyMaker: what net/http.NewRequest installs as Request.GetBody for an in-memory body
+func verifGetBodyMaker(b []byte) func() (io.ReadCloser, error) {
+	return func() (io.ReadCloser, error) { return &vBody{append([]byte{}, b...)}, nil }
+}
+
 type vRecorder struct {
 	hdr    http.Header
 	code   int
